@@ -44,6 +44,9 @@ func (vc *VC) call(ins ssa.Instruction, c *ssa.CallCommon, v *ssa.Call) {
 		}
 		sig = c.Method.Type().(*types.Signature)
 		paramNames = append(paramNames, "this")
+		for i := 0; i < sig.Params().Len(); i++ {
+			paramNames = append(paramNames, sig.Params().At(i).Name())
+		}
 		key = vc.ifaceKey(c.Value.Type(), c.Method)
 		if c.Method.Pkg() != nil {
 			calleePkg = c.Method.Pkg().Path()
@@ -811,6 +814,11 @@ func (vc *VC) checkInvariants(li *LoopInfo, src *ssa.BasicBlock, what string) {
 func (vc *VC) assumeInvariants(li *LoopInfo) {
 	env := vc.loopEnv(li, nil, vc.heap)
 	vc.assume(vc.autoRangeInvariant(li, env))
+	top0 := vc.getCompIn(vc.entryHeap, "top", "Int")
+	for _, ph := range li.localSlices {
+		t := vc.vals[ph]
+		vc.assume(fmt.Sprintf("(or (= (s_arr %s) 0) (> (s_arr %s) %s))", t.S, t.S, top0))
+	}
 	ls := vc.loopSpec(li)
 	if ls == nil {
 		return
@@ -937,7 +945,7 @@ func (vc *VC) frame(x *ssa.Return) {
 				ex = append(ex, fmt.Sprintf("(not (= %s %s))", r, a.ref))
 			}
 		}
-		cond := fmt.Sprintf("(=> (and (<= %s %s) %s) (= (select %s %s) (select %s %s)))", r, top0, "(and true "+strings.Join(ex, " ")+")", cur, r, init, r)
+		cond := fmt.Sprintf("(=> (and (< 0 (root %s)) (<= (root %s) %s) %s) (= (select %s %s) (select %s %s)))", r, r, top0, "(and true "+strings.Join(ex, " ")+")", cur, r, init, r)
 		vc.oblige(fmt.Sprintf("frame[%s]", k), "frame", cond, "heap component unchanged at pre-existing references outside modifies", x.Pos())
 	}
 }
